@@ -150,3 +150,17 @@ func TestPreserveLayoutPositionsAreBounded(t *testing.T) {
 		})
 	}
 }
+
+// TestSheetDimensionCheckDoesNotOverflow: the row number is written in the file; rows x columns is compared with
+// the cell limit before the dense grid is allocated.
+func TestSheetDimensionCheckDoesNotOverflow(t *testing.T) {
+	for _, r := range []string{"9223372036854775807", "4611686018427387904", "2147483648"} {
+		p := xlsxOf(t, `<row r="1"><c r="A1"><v>1</v></c></row><row r="`+r+`"><c r="B`+r+`"><v>2</v></c><c r="D`+r+`"><v>3</v></c></row>`)
+		answers(t, "row "+r, func() string {
+			tabula.Open(p).Text()
+			tabula.Open(p).ToMarkdown()
+			tabula.Open(p).Document()
+			return ""
+		})
+	}
+}
